@@ -274,6 +274,10 @@ class ManifestContext:
                         mf.parse_media_file()
                     if mf.representation is None:
                         continue
+                    if mf.representation.content_type != adp_set.content_type:
+                        # the track ID now belongs to a different kind of media
+                        # than when the AdaptationSet row was created
+                        continue
                     adp_set.representations.append(mf.representation)
                 adp_set.compute_av_values()
                 period.adaptationSets.append(adp_set)
